@@ -184,14 +184,22 @@ package prometheus
 //@   trace[C16,added-once] exactly 1 prometheus.Counter.Inc
 //@   trace[C17,start-at-most-once] atmost 1 prometheus.(*tunnelTimeMetrics).startConnection
 
+// Every datagram report reaches the per-key / per-location byte counters exactly once, unchanged,
+// whatever its status and sizes (a datagram that was not relayed still has its wire size).
 //@ func (*udpConnMetrics).AddPacketFromClient
 //@   props C16 C18
 //@   params cm status clientProxyBytes proxyTargetBytes
 //@   requires validUDPCM(cm)
+//@   trace[C16,client-datagram-passed-on-once] exactly 1 prometheus.(*udpServiceMetrics).addPacketFromClient
+//@   trace[C16,client-datagram-passed-on-unchanged] each prometheus.(*udpServiceMetrics).addPacketFromClient satisfies $arg0 == cm.udpServiceMetrics && $arg1 == status \
+//@        && $arg2 == clientProxyBytes && $arg3 == proxyTargetBytes && $arg4 == cm.accessKey && $arg5 == cm.clientInfo
 //@ func (*udpConnMetrics).AddPacketFromTarget
 //@   props C16 C18
 //@   params cm status targetProxyBytes proxyClientBytes
 //@   requires validUDPCM(cm)
+//@   trace[C16,target-datagram-passed-on-once] exactly 1 prometheus.(*udpServiceMetrics).addPacketFromTarget
+//@   trace[C16,target-datagram-passed-on-unchanged] each prometheus.(*udpServiceMetrics).addPacketFromTarget satisfies $arg0 == cm.udpServiceMetrics && $arg1 == status \
+//@        && $arg2 == targetProxyBytes && $arg3 == proxyClientBytes && $arg4 == cm.accessKey && $arg5 == cm.clientInfo
 //@ func (*udpConnMetrics).RemoveNatEntry
 //@   props C16 C17 C18
 //@   params cm
@@ -204,15 +212,26 @@ package prometheus
 //@   props C16 C18
 //@   params c status clientProxyBytes proxyTargetBytes accessKey clientInfo
 //@   requires validUDPSM(c)
+//@   trace[C16,client-datagram-bytes-counted-once] exactly 1 prometheus.(*proxyCollector).addClientTarget
+//@   trace[C16,client-datagram-bytes-counted-unchanged] each prometheus.(*proxyCollector).addClientTarget satisfies $arg0 == c.proxyCollector \
+//@        && $arg1 == clientProxyBytes && $arg2 == proxyTargetBytes && $arg3 == accessKey && $arg4 == clientInfo
 //@ func (*udpServiceMetrics).addPacketFromTarget
 //@   props C16 C18
 //@   params c status targetProxyBytes proxyClientBytes accessKey clientInfo
 //@   requires validUDPSM(c)
+//@   trace[C16,target-datagram-bytes-counted-once] exactly 1 prometheus.(*proxyCollector).addTargetClient
+//@   trace[C16,target-datagram-bytes-counted-unchanged] each prometheus.(*proxyCollector).addTargetClient satisfies $arg0 == c.proxyCollector \
+//@        && $arg1 == targetProxyBytes && $arg2 == proxyClientBytes && $arg3 == accessKey && $arg4 == clientInfo
 
+// The location used for the per-connection metrics is the classifier's answer, also when it reports an
+// error (XA / XD travel with the error), so that one address gets one label everywhere.
 //@ func (*serviceMetrics).getIPInfoFromAddr
 //@   props C18 C20
 //@   params m addr
 //@   requires m != nil
+//@   trace[C20,one-classification-per-address] exactly 1 ipinfo.GetIPInfoFromAddr
+//@   trace[C20,classifies-this-address-with-the-configured-database] each ipinfo.GetIPInfoFromAddr satisfies $arg0 == m.ip2info && $arg1 == addr
+//@   trace[C20,the-classifiers-answer-is-the-label] each ipinfo.GetIPInfoFromAddr satisfies result == $res0
 //@ func (*serviceMetrics).AddOpenTCPConnection
 //@   props C15 C18 C20
 //@   params m clientConn
